@@ -378,6 +378,19 @@ func (rl *replyLoop) errsFamily(v ssa.Value, seen map[ssa.Value]bool) bool {
 			return false
 		}
 		return rl.errsFamily(x.Call.Args[0], seen)
+	case *ssa.MakeSlice:
+		// make([]nodeError, 0, n): an empty slice with room; a non-zero length would be counted as errors
+		c, ok := x.Len.(*ssa.Const)
+		return ok && c.Value != nil && constant.Sign(c.Value) == 0
+	case *ssa.Slice:
+		// []nodeError{}: a slice of a zero-length array
+		if al, ok := x.X.(*ssa.Alloc); ok && x.Low == nil && x.High == nil {
+			if pt, ok := al.Type().Underlying().(*types.Pointer); ok {
+				if arr, ok := pt.Elem().Underlying().(*types.Array); ok && arr.Len() == 0 {
+					return true
+				}
+			}
+		}
 	}
 	return false
 }
